@@ -21,12 +21,12 @@ def gen_cases(ctx):
         for gi, pr in enumerate(grid):
             p = max(pr[0], pr[1], pr[2], 1)
             hlen = 2 * p + 3
-            hist = feed(r, ind, hlen)
+            hist = feed(r, ind, hlen, p=p)
             if r.random() < 0.5:
                 hist.insert(r.randrange(len(hist) + 1), ("r", 0))
             positions = list(range(len(hist) + 1)) if (p <= 2 or ctx.thorough) else sorted(set([0, 1, p, p + 1, len(hist)] + [r.randrange(len(hist) + 1)]))
             for pos in positions:
-                cont = feed(r, ind, p + 2 + r.randint(0, 3))
+                cont = feed(r, ind, p + 2 + r.randint(0, 3), p=p)
                 ops = [new_op(0, ind, pr), new_op(1, ind, pr)]
 
                 def both(o):
